@@ -7,6 +7,6 @@ require (
 	github.com/anishathalye/porcupine v1.3.0
 )
 
-require github.com/google/uuid v1.3.0 // indirect
+require github.com/google/uuid v1.3.0
 
 replace github.com/Tnze/go-mc => /repo
